@@ -18,6 +18,16 @@ Terminology
   asymmetry B         a TSB capture carries the empty delta of every non-ticking collection field;
                       applying it validates a TSS/TSD field that was never valid  (tagged [C20-B])
 
+Dynamic lists (streams `dynlist-*`, `recover-dynlist`): TSL<S> without a size.  There the ticks are WRITTEN to the
+source through the raw output API (`source raw`: harness/replay_raw.h, list.at(i) / set.add / dict.at(key) ...), not
+applied with apply_delta, so that a change of apply_delta cannot alter the source and its replay in the same way;
+graph 1 is  hgv_rawsrc -> record(out),  graph 2 replays that recording.  Histories: contiguous growth, growth that
+skips one or several indices, first tick at an index > 0, a skipped index ticking later, several new indices in one
+tick, nested dynamic lists in dictionary values / bundle fields / lists.
+  asymmetry D         (`touch c i`: at(i) without a write) a dynamic list that grows without its new last child ticking:
+                      the delta is a map without a length, the replayed list stays shorter  (tagged [C20-D], a known finding; C20_D=off
+                      silences the monitor on those histories - the correspondence check covers them in any case)
+
 Recover / as-of stream (streams `recover-*`, harness/drv_recover.cpp -> .build/hgv_recover): the same histories
 recorded SPARSELY (':memory:' backend) and read back the way a recovering component reads them:
 record_replay::recorded_seed_resolver(start_time = cycle c) for EVERY cycle c of the run.  Decided on the
@@ -30,7 +40,7 @@ import os, re
 from vlib import Case, Stream, BUILD, model_cmd
 
 ID = "C20"
-LEAN_MODULES = ["HgVerif.Props.C20", "HgVerif.Props.C20Recover"]
+LEAN_MODULES = ["HgVerif.Props.C20", "HgVerif.Props.C20Recover", "HgVerif.Props.C20Dyn"]
 THEOREMS = [
     "HgVerif.Delta.apply_capture", "HgVerif.Delta.capture_apply",
     "HgVerif.Delta.tick_hasEffect", "HgVerif.Delta.tick_observable", "HgVerif.Delta.apply_noEffect",
@@ -44,6 +54,12 @@ THEOREMS = [
     "HgVerif.Delta.recover_all", "HgVerif.Delta.recordSparse_graph", "HgVerif.Delta.asof_graph_eq_live",
     "HgVerif.Delta.replaySparse_id", "HgVerif.Delta.apply_clear",
     "HgVerif.Delta.oneView_readd_wrong", "HgVerif.Delta.oneView_window_throws", "HgVerif.Delta.oneView_unsound",
+    # dynamic lists (Props/C20Dyn.lean); the theorems above hold for every schema, dynamic lists included
+    "HgVerif.Delta.dyn_apply_capture", "HgVerif.Delta.dyn_apply_capture_length", "HgVerif.Delta.dyn_capture_apply",
+    "HgVerif.Delta.dyn_skip_tick", "HgVerif.Delta.dyn_skip_capture", "HgVerif.Delta.dyn_replay_record_id",
+    "HgVerif.Delta.dyn_replay_states", "HgVerif.Delta.dyn_replay_values", "HgVerif.Delta.append_rule_breaks_round_trip",
+    "HgVerif.Delta.append_rule_contiguous", "HgVerif.Delta.growth_without_tick_not_reproduced",
+    "HgVerif.Delta.dyn_tick_last_needed", "HgVerif.Delta.clear_fresh",
 ]
 CXX_TARGETS = ["hgv_replay", "hgv_recover"]
 RULE = ("generated schemas to depth 3 (4 in thorough) over TS/SIGNAL/TSW/TSS/TSD/TSL/TSB with Int and Str scalars, "
@@ -52,7 +68,9 @@ RULE = ("generated schemas to depth 3 (4 in thorough) over TS/SIGNAL/TSW/TSS/TSD
         "of the case text.  Recover / as-of stream: replayable histories biased to dictionaries of collections over 2-4 "
         "keys and to windows, the recording read as of EVERY cycle 0..last+2; non-trivial when a key with a collection "
         "child is added again in a cycle after its removal, when a window has several entries, or when folding the "
-        "entries through one view would give another state or throw")
+        "entries through one view would give another state or throw.  Dynamic-list streams: schemas with a dynamic TSL at "
+        "top level or nested (dictionary value, bundle field, list element, list of lists), ticks written through the raw "
+        "output API; non-trivial when some growth of a dynamic list skips an index or its first tick is at an index > 0")
 TRUSTED = ["ankerl::unordered_dense / KeySlotStore modelled as key-indexed vectors over a finite key universe "
            "(per-key effects of apply_delta are independent, iteration order immaterial)",
            "the value layer (Value copy/equals, builders) and the graph engine's scheduling of the two nodes "
@@ -61,7 +79,10 @@ ASSUMPTIONS = ["dense 'testing' backend (streams replayable / any-delta) and spa
                "simulation mode, start time MIN_ST",
                "recover stream: recordings written by the record node in one run (strictly increasing entry times, "
                "record_times_increasing); the resolver is asked through its in-memory dispatch (backend 'memory')",
-               "no invalidation ticks and no REF / dynamic TSL / duration TSW shapes (capture_delta rejects or skips them)",
+               "no invalidation ticks and no REF / duration TSW shapes (capture_delta rejects or skips them); dynamic TSL: "
+               "indices 0..11, lists never shrink (the code has no removal surface)",
+               "dynamic lists: a list that grows in a cycle has a ticking new last child (growth by at(i) without a write is "
+               "situation D, proved to break the round trip: growth_without_tick_not_reproduced)",
                "theorems apply_capture / replay_record_id carry the hypothesis Replayable (no empty tick on a valid "
                "TSS/TSD, non-ticking TSS/TSD bundle fields already valid, every dictionary child valid); the two "
                "excluded situations are proved to break the round trip (emptyTick_not_replayed, "
@@ -71,6 +92,8 @@ UNIV = 10          # key universe of the model: keys/elements 0..9 or s0..s9
 
 # ------------------------------------------------------------------ schemas
 # ('TS', str?) ('SIGNAL',) ('TSW', period, minp) ('TSS', str?) ('TSD', str?, child) ('TSL', child, n) ('TSB', [children])
+# ('TSLD', child)  dynamic list  TSL<child>
+DYN_MAX = 12       # a dynamic list's delta text names indices 0..DYN_MAX-1
 
 
 def schema_text(s):
@@ -87,6 +110,8 @@ def schema_text(s):
         return "TSD<%s,%s>" % ("Str" if s[1] else "Int", schema_text(s[2]))
     if k == 'TSL':
         return "TSL<%s,%d>" % (schema_text(s[1]), s[2])
+    if k == 'TSLD':
+        return "TSL<%s>" % schema_text(s[1])
     if k == 'TSB':
         return "TSB<%s>" % ",".join("%s:%s" % (chr(97 + i), schema_text(c)) for i, c in enumerate(s[1]))
     raise ValueError(k)
@@ -126,7 +151,10 @@ def parse_schema(c):
         ch = parse_schema(c); c.need(">")
         return ('TSD', k == "Str", ch)
     if c.eat("TSL<"):
-        ch = parse_schema(c); c.need(",")
+        ch = parse_schema(c)
+        if c.eat(">"):
+            return ('TSLD', ch)
+        c.need(",")
         n = int(c.tok()); c.need(">")
         return ('TSL', ch, n)
     if c.eat("TSB<"):
@@ -152,14 +180,14 @@ def parse_schema(c):
 
 
 def is_collection(s):
-    return s[0] in ('TSS', 'TSD', 'TSL', 'TSB')
+    return s[0] in ('TSS', 'TSD', 'TSL', 'TSLD', 'TSB')
 
 
 def depth(s):
     k = s[0]
     if k == 'TSD':
         return 1 + depth(s[2])
-    if k == 'TSL':
+    if k in ('TSL', 'TSLD'):
         return 1 + depth(s[1])
     if k == 'TSB':
         return 1 + max(depth(c) for c in s[1])
@@ -217,7 +245,7 @@ def parse_delta(s, c):
                     break
             c.need("}")
         return (rem, mod)
-    if k == 'TSL':
+    if k in ('TSL', 'TSLD'):
         out = {}
         c.need("[")
         if not c.eat("]"):
@@ -248,7 +276,7 @@ def default_delta(s):
         return (set(), set())
     if k == 'TSD':
         return (set(), {})
-    if k == 'TSL':
+    if k in ('TSL', 'TSLD'):
         return {}
     if k == 'TSB':
         return {i: default_delta(c) for i, c in enumerate(s[1]) if is_collection(c)}
@@ -260,7 +288,7 @@ def canon(s, d):
     k = s[0]
     if k == 'TSD':
         return (set(d[0]), {key: canon(s[2], v) for key, v in d[1].items()})
-    if k == 'TSL':
+    if k in ('TSL', 'TSLD'):
         return {i: canon(s[1], v) for i, v in d.items()}
     if k == 'TSB':
         out = {}
@@ -284,7 +312,7 @@ def show_delta(s, d):
     if k == 'TSD':
         return "{" + ",".join(["-" + sc(s[1], x) for x in sorted(d[0])] +
                               [sc(s[1], x) + "=" + show_delta(s[2], d[1][x]) for x in sorted(d[1])]) + "}"
-    if k == 'TSL':
+    if k in ('TSL', 'TSLD'):
         return "[" + ",".join("%d=%s" % (i, show_delta(s[1], d[i])) for i in sorted(d)) + "]"
     if k == 'TSB':
         return "(" + ",".join("%s=%s" % (chr(97 + i), show_delta(s[1][i], d[i])) for i in sorted(d)) + ")"
@@ -293,14 +321,22 @@ def show_delta(s, d):
 
 # ------------------------------------------------------------------ spec states (the obvious fold)
 # TS/SIGNAL: None|v   TSW: None|list   TSS: None|set   TSD: None|dict   TSL/TSB: list of child states
+# TSLD: list of the child states that exist (grows; a skipped index is a fresh child)
 
 def fresh(s):
     k = s[0]
     if k == 'TSL':
         return [fresh(s[1]) for _ in range(s[2])]
+    if k == 'TSLD':
+        return []
     if k == 'TSB':
         return [fresh(c) for c in s[1]]
     return None
+
+
+def grown(s, st, n):
+    """a dynamic list after `at(n-1)`: every index below n exists"""
+    return list(st) + [fresh(s[1]) for _ in range(n - len(st))]
 
 
 def spec_apply(s, st, d):
@@ -320,6 +356,9 @@ def spec_apply(s, st, d):
         return out
     if k == 'TSL':
         return [spec_apply(s[1], c, d[i]) if i in d else c for i, c in enumerate(st)]
+    if k == 'TSLD':
+        cur = grown(s, st, max(d) + 1) if d else list(st)
+        return [spec_apply(s[1], c, d[i]) if i in d else c for i, c in enumerate(cur)]
     if k == 'TSB':
         return [spec_apply(c, st[i], d[i]) if i in d else st[i] for i, c in enumerate(s[1])]
     raise ValueError(k)
@@ -339,6 +378,8 @@ def show_state(s, st):
         return "_" if st is None else "{" + ",".join(sc(s[1], x) + "=" + show_state(s[2], st[x]) for x in sorted(st)) + "}"
     if k == 'TSL':
         return "[" + ",".join(show_state(s[1], c) for c in st) + "]"
+    if k == 'TSLD':
+        return "[" + ",".join(show_state(s[1], c) for c in st) + "]#%d" % len(st)
     if k == 'TSB':
         return "(" + ",".join("%s=%s" % (chr(97 + i), show_state(c, st[i])) for i, c in enumerate(s[1])) + ")"
     raise ValueError(k)
@@ -346,7 +387,7 @@ def show_state(s, st):
 
 def is_valid(s, st):
     k = s[0]
-    if k == 'TSL':
+    if k in ('TSL', 'TSLD'):
         return any(is_valid(s[1], c) for c in st)
     if k == 'TSB':
         return any(is_valid(c, st[i]) for i, c in enumerate(s[1]))
@@ -387,6 +428,10 @@ def replayable(s, st, d):
         return bool(d[0] or d[1]) or st is None
     if k == 'TSL':
         return bool(d) and all(0 <= i < s[2] and replayable(s[1], st[i], cd) for i, cd in d.items())
+    if k == 'TSLD':
+        # every named child ticks effectively (so the largest named index, the new last child, ticks too)
+        return bool(d) and all(0 <= i < DYN_MAX and replayable(s[1], st[i] if i < len(st) else fresh(s[1]), cd)
+                               for i, cd in d.items())
     if k == 'TSB':
         real = 0
         for i, c in enumerate(s[1]):
@@ -401,17 +446,20 @@ def replayable(s, st, d):
 
 
 # ------------------------------------------------------------------ generator
-def gen_schema(rng, d, top=True):
+def gen_schema(rng, d, top=True, dyn=False):
+    """dyn: dynamic lists allowed (only the dynamic-list streams ask for them)"""
     leafs = [('TS', False), ('TS', False), ('TS', True), ('SIGNAL',), ('TSS', False), ('TSS', True),
              ('TSW', rng.randint(1, 3), rng.randint(1, 2))]
     if d <= 1 or (not top and rng.random() < 0.25):
         return rng.choice(leafs)
     r = rng.random()
+    if dyn and r < 0.35:
+        return ('TSLD', gen_schema(rng, d - 1, False, dyn))
     if r < 0.4:
-        return ('TSD', rng.random() < 0.3, gen_schema(rng, d - 1, False))
+        return ('TSD', rng.random() < 0.3, gen_schema(rng, d - 1, False, dyn))
     if r < 0.6:
-        return ('TSL', gen_schema(rng, d - 1, False), rng.randint(1, 3))
-    return ('TSB', [gen_schema(rng, d - 1, False) for _ in range(rng.randint(1, 3))])
+        return ('TSL', gen_schema(rng, d - 1, False, dyn), rng.randint(1, 3))
+    return ('TSB', [gen_schema(rng, d - 1, False, dyn) for _ in range(rng.randint(1, 3))])
 
 
 FIXED_SCHEMAS = [
@@ -424,10 +472,39 @@ FIXED_SCHEMAS = [
 
 class Ctx:
     """remembers recently removed keys so that remove + re-add happens often"""
-    def __init__(self, rng, key_univ=UNIV):
+    def __init__(self, rng, key_univ=UNIV, dyn_mode=None):
         self.rng = rng
         self.graveyard = []
         self.key_univ = key_univ          # dictionary keys are drawn from 0..key_univ-1 (small = many re-adds)
+        self.dyn_mode = dyn_mode          # None: mixed growth of dynamic lists; 'contiguous': never skip an index
+
+
+def gen_dyn_indices(cx, n):
+    """indices a tick of a dynamic list with `n` children names: old children, contiguous growth, growth that skips
+    indices, several new indices at once; never beyond DYN_MAX-1"""
+    rng = cx.rng
+    room = DYN_MAX - n
+    old = [i for i in range(n) if rng.random() < 0.35]
+    new = []
+    r = rng.random()
+    if n >= 5 and rng.random() < 0.6:
+        r = 1.0                                           # a long list mostly ticks its existing children
+    if room > 0:
+        if cx.dyn_mode == 'contiguous':
+            if r < 0.6 or not n:
+                new = list(range(n, n + min(room, rng.choice([1, 1, 2, 3]))))
+        elif r < 0.25:                                    # contiguous growth (one or several)
+            new = list(range(n, n + min(room, rng.choice([1, 1, 2, 3]))))
+        elif r < 0.55:                                    # one new child, 1-3 indices skipped
+            new = [min(DYN_MAX - 1, n + rng.choice([1, 1, 2, 3]))]
+        elif r < 0.7:                                     # several new children with gaps between them
+            cand = list(range(n, min(DYN_MAX, n + 6)))
+            new = sorted(rng.sample(cand, min(len(cand), rng.choice([2, 2, 3]))))
+        # else: no growth in this tick
+    idx = sorted(set(old + new))
+    if not idx:
+        idx = [rng.randrange(n)] if n and (room == 0 or rng.random() < 0.5) else [n if cx.dyn_mode == 'contiguous' or rng.random() < 0.5 else min(DYN_MAX - 1, n + rng.choice([1, 2]))]
+    return idx
 
 
 def gen_tick(cx, s, st, fresh_child=False):
@@ -484,6 +561,8 @@ def gen_tick(cx, s, st, fresh_child=False):
     if k == 'TSL':
         idx = [i for i in range(s[2]) if rng.random() < 0.5] or [rng.randrange(s[2])]
         return {i: gen_tick(cx, s[1], st[i]) for i in idx}
+    if k == 'TSLD':
+        return {i: gen_tick(cx, s[1], st[i] if i < len(st) else fresh(s[1])) for i in gen_dyn_indices(cx, len(st))}
     if k == 'TSB':
         n = len(s[1])
         idx = set(i for i in range(n) if rng.random() < 0.5) or {rng.randrange(n)}
@@ -515,6 +594,12 @@ def gen_odd_tick(cx, s, st):
     if k == 'TSL':
         return {i: (gen_odd_tick(cx, s[1], st[i]) if rng.random() < 0.5 else gen_tick(cx, s[1], st[i]))
                 for i in range(s[2]) if rng.random() < 0.5}
+    if k == 'TSLD':
+        out = {}
+        for i in ([] if rng.random() < 0.1 else gen_dyn_indices(cx, len(st))):
+            child = st[i] if i < len(st) else fresh(s[1])
+            out[i] = gen_odd_tick(cx, s[1], child) if rng.random() < 0.5 else gen_tick(cx, s[1], child)
+        return out
     if k == 'TSB':
         return {i: (gen_odd_tick(cx, c, st[i]) if rng.random() < 0.5 else gen_tick(cx, c, st[i]))
                 for i, c in enumerate(s[1]) if rng.random() < 0.5}
@@ -539,6 +624,94 @@ def gen_case(rng, idx, kind, maxd, maxticks):
         cyc += rng.choice([1, 1, 1, 2, 3])
     lines += ["run", "rerun", "final", "direct"]
     return Case(lines, {"kind": kind})
+
+
+# ------------------------------------------------------------------ dynamic-list streams: generator
+DYN_CHILDREN = ["TS<Int>", "TS<Int>", "TS<Int>", "TS<Str>", "TSS<Int>", "TSS<Int>", "TSS<Str>", "SIGNAL", "TSW<Int,2,1>",
+                "TSD<Int,TS<Int>>", "TSD<Int,TSS<Int>>", "TSL<TS<Int>,2>", "TSB<a:TS<Int>,b:TS<Str>>",
+                "TSB<a:TS<Int>,b:TSS<Int>>", "TSL<TS<Int>>", "TSL<TS<Int>>", "TSL<TSS<Int>>", "TSL<TSL<TS<Int>>>"]
+DYN_FIXED = [   # the shapes of seeded/s90's demo and their neighbours
+    "TSL<TS<Int>>", "TSL<TSS<Int>>", "TSD<Int,TSL<TS<Int>>>", "TSB<a:TS<Int>,b:TSL<TS<Int>>>", "TSL<TSL<TS<Int>>>",
+    "TSD<Str,TSL<TSS<Int>>>", "TSL<TSL<TS<Int>>,2>", "TSB<a:TSL<TSS<Int>>,b:TSL<TS<Str>>>", "TSD<Int,TSB<a:TS<Int>,b:TSL<TS<Int>>>>",
+    "TSL<TSD<Int,TSL<TS<Int>>>>",
+]
+
+
+def gen_dyn_schema(rng, maxd):
+    r = rng.random()
+    if r < 0.3:
+        return parse_schema(Cur(rng.choice(DYN_FIXED)))
+    if r < 0.8:
+        inner = "TSL<%s>" % rng.choice(DYN_CHILDREN)
+        w = rng.random()
+        if w < 0.2:
+            inner = "TSD<%s,%s>" % (rng.choice(["Int", "Int", "Str"]), inner)
+        elif w < 0.35:
+            inner = "TSB<a:TS<Int>,b:%s>" % inner
+        elif w < 0.42:
+            inner = "TSB<a:%s,b:TSS<Int>>" % inner
+        elif w < 0.5:
+            inner = "TSL<%s,2>" % inner
+        elif w < 0.56:
+            inner = "TSL<%s>" % inner
+        elif w < 0.62:
+            inner = "TSD<Int,TSD<Int,%s>>" % inner
+        return parse_schema(Cur(inner))
+    while True:
+        s = gen_schema(rng, rng.randint(2, maxd), True, True)
+        if _contains_kind(s, 'TSLD'):
+            return s
+
+
+def gen_dyn_case(rng, idx, kind, maxd, maxticks, tail, touch=False):
+    """kind 'wf': replayable history written through the raw API (real parts only: a raw write of a default `{}` would
+    tick the field); 'odd': arbitrary deltas; touch: at(i) without a write on a top-level dynamic list"""
+    s = gen_dyn_schema(rng, maxd)
+    if touch:
+        s = ('TSLD', parse_schema(Cur(rng.choice(DYN_CHILDREN[:9]))))
+    cx = Ctx(rng, key_univ=rng.choice([3, 4, UNIV]), dyn_mode='contiguous' if (kind == 'wf' and rng.random() < 0.12) else None)
+    lines = ["case %d" % idx, "schema " + schema_text(s), "source raw"]
+    st = fresh(s)
+    cyc = rng.choice([0, 0, 0, 1, 2])
+    for _ in range(rng.randint(2, maxticks)):
+        if touch and rng.random() < 0.4:
+            ti = min(DYN_MAX - 1, (len(st) + rng.choice([0, 0, 1, 2, -1])) if len(st) else rng.choice([0, 1, 2]))
+            lines.append("touch %d %d" % (cyc, ti))
+            st = grown(s, st, ti + 1)
+            if rng.random() < 0.4:
+                cyc += rng.choice([1, 1, 2])
+                continue
+        odd = kind == 'odd' and rng.random() < 0.4
+        d = gen_odd_tick(cx, s, st) if odd else gen_tick(cx, s, st)
+        st = spec_apply(s, st, d)
+        lines.append("tick %d %s" % (cyc, show_delta(s, d)))
+        cyc += rng.choice([1, 1, 1, 2, 3])
+    return Case(lines + list(tail), {"kind": kind, "raw": True})
+
+
+DYN_DIRECTED = [   # the histories of seeded/s90/drv_demo.cpp and the minimal growth patterns
+    ["schema TSL<TS<Int>>", "source raw", "tick 0 [0=1]", "tick 1 [2=3]", "tick 2 [1=7]", "tick 3 [2=4]"],
+    ["schema TSL<TS<Int>>", "source raw", "tick 0 [0=1]", "tick 1 [2=3]"],
+    ["schema TSL<TS<Int>>", "source raw", "tick 0 [0=1]", "tick 1 [2=3]", "tick 3 [1=7]", "tick 4 [2=4]"],
+    ["schema TSL<TSS<Int>>", "source raw", "tick 0 [0={+1}]", "tick 1 [2={+3}]", "tick 2 [0={+4},2={+5}]"],
+    ["schema TSD<Int,TSL<TS<Int>>>", "source raw", "tick 0 {7=[0=1]}", "tick 1 {8=[1=5]}", "tick 2 {8=[0=6]}"],
+    ["schema TSL<TS<Int>>", "source raw", "tick 0 [0=1]", "tick 1 [0=5,1=9]", "tick 2 [2=7]", "tick 3 [1=11]"],
+    ["schema TSL<TS<Int>>", "source raw", "tick 0 [0=1,1=2,2=3]", "tick 2 [1=20]"],
+    ["schema TSL<TS<Int>>", "source raw", "tick 2 [3=1]"],
+    ["schema TSL<TS<Int>>", "source raw", "tick 0 [1=1,4=2,6=3]", "tick 1 [0=9,5=8]", "tick 3 [11=1]"],
+    ["schema TSB<a:TS<Int>,b:TSL<TSL<TS<Int>>>>", "source raw", "tick 0 (a=1)", "tick 1 (b=[1=[2=5]])", "tick 2 (a=2)", "tick 3 (b=[0=[1=1],1=[0=2]])"],
+    ["schema TSL<TSL<TS<Int>>,2>", "source raw", "tick 0 [1=[1=4]]", "tick 1 [0=[0=1],1=[3=2]]"],
+    ["schema TSD<Str,TSL<TSS<Int>>>", "source raw", "tick 0 {s1=[2={}]}", "tick 1 {s1=[0={+1}],s2=[1={+2,+3}]}", "tick 2 {-s1}", "tick 3 {s1=[1={+7}]}"],
+    ["schema TSL<TS<Int>>", "source raw"],
+    # the same through apply_delta (source = replay of authored deltas)
+    ["schema TSL<TS<Int>>", "tick 0 [0=1]", "tick 1 [2=3]", "tick 3 [1=7]"],
+    ["schema TSD<Int,TSL<TS<Int>>>", "tick 0 {7=[0=1]}", "tick 1 {8=[1=5]}"],
+]
+DYN_TOUCH_DIRECTED = [   # growth without a tick (situation D)
+    ["schema TSL<TS<Int>>", "source raw", "tick 0 [0=1]", "touch 1 4", "tick 2 [1=5]", "touch 3 6", "tick 3 [0=2]"],
+    ["schema TSL<TS<Int>>", "source raw", "touch 0 2", "tick 0 [0=2]"],
+    ["schema TSL<TSS<Int>>", "source raw", "tick 0 [1={+1}]", "touch 1 1", "tick 1 [0={+2}]", "touch 2 3"],
+]
 
 
 # ------------------------------------------------------------------ recover / as-of stream: generator
@@ -661,13 +834,31 @@ def streams(rng, tier, seed):
     n_any = 80 if quick else 2500
     acases = [Case(["case %d" % i] + gen_case(rng, 0, 'odd', maxd, maxt).lines[1:-4] + rtail) for i in range(n_any)]
     out.append(Stream("recover-any-delta", rexe, model_cmd("C20"), acases))
+    # dynamic lists: generated after everything else (the streams above keep their cases); ticks written through the raw API
+    n_dyn, n_dodd, n_dtouch, n_drec = (230, 70, 40, 90) if quick else (8000, 2500, 1200, 3000)
+    dtail = ["run", "rerun", "final", "states", "direct"]
+    dcases = [Case(["case %d" % (9300 + i)] + list(b) + dtail, {"kind": "wf", "raw": True}) for i, b in enumerate(DYN_DIRECTED)]
+    dcases += [gen_dyn_case(rng, i, 'wf', maxd, maxt, dtail) for i in range(n_dyn)]
+    out.append(Stream("dynlist-raw", exe, model_cmd("C20"), dcases))
+    if os.environ.get("C20_FINDINGS", "on") != "off":
+        ocases = [Case(["case %d" % (9400 + i)] + list(b) + dtail, {"kind": "odd", "raw": True})
+                  for i, b in enumerate(DYN_TOUCH_DIRECTED)]
+        ocases += [gen_dyn_case(rng, i, 'odd', maxd, maxt, dtail) for i in range(n_dodd)]
+        ocases += [gen_dyn_case(rng, 5000 + i, rng.choice(['wf', 'wf', 'odd']), maxd, maxt, dtail, touch=True)
+                   for i in range(n_dtouch)]
+        for cs in ocases:
+            cs.meta["kind"] = "odd"        # no stream-level promise that these histories are replayable
+        out.append(Stream("dynlist-any", exe, model_cmd("C20"), ocases))
+    drcases = [gen_dyn_case(rng, i, 'wf', maxd, maxt, rtail) for i in range(n_drec)]
+    out.append(Stream("recover-dynlist", rexe, model_cmd("C20"), drcases))
     return out
 
 
 # ------------------------------------------------------------------ monitor
 def _parse_case(case, out):
     """-> dict(schema, ticks[(cycle, tree)], rec1, rec2 ({cycle: text}, n), val1, val2, direct) or None if unusable"""
-    info = {"schema": None, "ticks": [], "rec1": None, "rec2": None, "vals": None, "direct": None, "bad": []}
+    info = {"schema": None, "ticks": [], "rec1": None, "rec2": None, "vals": None, "direct": None, "bad": [],
+            "raw": False, "touches": [], "states": None}
     for ln, o in zip(case.lines, list(out) + ["<none>"] * len(case.lines)):
         w = ln.split()
         if not w:
@@ -678,7 +869,16 @@ def _parse_case(case, out):
                     info["schema"] = parse_schema(Cur(w[1]))
                 except Exception:
                     info["schema"] = None
-            info["ticks"] = []
+            info["ticks"], info["touches"], info["raw"] = [], [], False
+        elif w[0] == "source" and len(w) == 2 and o == "ok":
+            info["raw"] = w[1] == "raw"
+        elif w[0] == "touch" and len(w) == 3 and o == "ok":
+            info["touches"].append((int(w[1]), int(w[2])))
+        elif w[0] == "states":
+            if o.startswith("states"):
+                info["states"] = o.split()[1:]
+            elif info["schema"] is not None and not o.startswith("err:norun"):
+                info["bad"].append("states failed: %s" % o)
         elif w[0] == "tick" and len(w) == 3 and info["schema"] is not None:
             if o == "ok":
                 try:
@@ -761,6 +961,19 @@ def parse_state(s, c):
             out.append(parse_state(s[1], c))
         c.need("]")
         return out
+    if k == 'TSLD':
+        c.need("[")
+        out = []
+        if not c.eat("]"):
+            while True:
+                out.append(parse_state(s[1], c))
+                if not c.eat(","):
+                    break
+            c.need("]")
+        c.need("#")
+        if int(c.tok()) != len(out):
+            raise ValueError("dynamic list size")
+        return out
     if k == 'TSB':
         c.need("(")
         out = []
@@ -774,30 +987,38 @@ def parse_state(s, c):
     raise ValueError(k)
 
 
-def _norm(s, st, b, cc):
-    """b: read a never-valid TSS/TSD as the empty one; cc: drop dictionary keys whose child is not valid"""
+def _norm(s, st, b, cc, dd=False):
+    """b: read a never-valid TSS/TSD as the empty one; cc: drop dictionary keys whose child is not valid;
+    dd: drop the trailing never-valid children of a dynamic list"""
     k = s[0]
     if k == 'TSS':
         return set() if (st is None and b) else st
     if k == 'TSD':
         if st is None:
             return {} if b else None
-        return {key: _norm(s[2], v, b, cc) for key, v in st.items() if not (cc and not is_valid(s[2], v))}
+        return {key: _norm(s[2], v, b, cc, dd) for key, v in st.items() if not (cc and not is_valid(s[2], v))}
     if k == 'TSL':
-        return [_norm(s[1], c, b, cc) for c in st]
+        return [_norm(s[1], c, b, cc, dd) for c in st]
+    if k == 'TSLD':
+        out = list(st)
+        while dd and out and not is_valid(s[1], out[-1]):
+            out.pop()
+        return [_norm(s[1], c, b, cc, dd) for c in out]
     if k == 'TSB':
-        return [_norm(c, st[i], b, cc) for i, c in enumerate(s[1])]
+        return [_norm(c, st[i], b, cc, dd) for i, c in enumerate(s[1])]
     return st
 
 
 def _state_class(s, t1, t2):
-    """why two state texts differ: 'B', 'C', 'B+C' (explained by the known asymmetries) or None"""
+    """why two state texts differ: 'B', 'C', 'D', 'B+C', ... (explained by the known asymmetries) or None"""
     try:
         a, b = parse_state(s, Cur(t1)), parse_state(s, Cur(t2))
     except Exception:
         return None
-    for tag, fb, fc in (("B", True, False), ("C", False, True), ("B+C", True, True)):
-        if _norm(s, a, fb, fc) == _norm(s, b, fb, fc):
+    for tag, fb, fc, fd in (("B", True, False, False), ("C", False, True, False), ("D", False, False, True),
+                            ("B+C", True, True, False), ("B+D", True, False, True), ("C+D", False, True, True),
+                            ("B+C+D", True, True, True)):
+        if _norm(s, a, fb, fc, fd) == _norm(s, b, fb, fc, fd):
             return tag
     return None
 
@@ -805,14 +1026,16 @@ def _state_class(s, t1, t2):
 MSG_A = "[C20-A] an empty tick of an already valid TSS/TSD is recorded but not re-created by replay: "
 MSG_B = "[C20-B] a captured TSB delta carries the empty delta of a non-ticking TSS/TSD field; applying it validates the never-valid field: "
 MSG_C = "[C20-C] a dictionary key whose child never became valid is not recorded: "
+MSG_D = "[C20-D] a dynamic list that grew (at(i)) without its new last child ticking is not re-created at that length by replay: "
 MSG_0 = "[C20] "
+D_ON = os.environ.get("C20_D", "on") == "on"      # report situation D (see the module docstring)
 
 
 def _msg_for_state(tag, s, t1, t2):
     if tag is not None:
         return tag
     cls = _state_class(s, t1, t2)
-    return {None: MSG_0, "B": MSG_B, "C": MSG_C, "B+C": MSG_B}[cls]
+    return {None: MSG_0, "B": MSG_B, "C": MSG_C, "D": MSG_D, "B+C": MSG_B, "B+D": MSG_B, "C+D": MSG_C, "B+C+D": MSG_B}[cls]
 
 
 def _analyse(case, out):
@@ -828,7 +1051,24 @@ def _analyse(case, out):
     ok_hist = True
     prev = None
     seen_removed = set()
-    for cyc, d in info["ticks"]:
+    has_d = False
+    exp_states = {}
+    if info["raw"]:
+        feats.add("source-raw")
+    tick_at = dict(info["ticks"])
+    for cyc in sorted(set(tick_at) | set(c for c, _ in info["touches"])):
+        d = tick_at.get(cyc)
+        tch = [i for c, i in info["touches"] if c == cyc]
+        if tch and s[0] == 'TSLD':
+            feats.add("dyn:touch-without-write")
+            named = (max(d) + 1) if d else 0
+            if max(max(tch) + 1, named, len(st)) != max(named, len(st)):
+                has_d = True                   # growth that no entry of the delta witnesses
+                ok_hist = False
+                feats.add("dyn:unwitnessed-growth")
+            st = grown(s, st, max(tch) + 1)
+        if d is None:
+            continue
         if prev is not None and cyc > prev + 1:
             feats.add("gap")
         if prev is None and cyc > 0:
@@ -838,7 +1078,26 @@ def _analyse(case, out):
             ok_hist = False
         _features_of(s, st, d, feats, seen_removed)
         st = spec_apply(s, st, d)
+        exp_states[cyc] = show_state(s, st)
     feats.add("history-replayable" if ok_hist else "history-any")
+    if not ok_hist and not has_d:
+        # growth that nothing witnesses also comes from a delta whose entry for a new last index has no effect
+        # (`[10=()]`: at(10) grows the list, the gated child apply does nothing): read it off the source's own states
+        texts = [t.partition(":")[2].split("|")[2] for t in (info["direct"] or []) if t.count("|") == 3]
+        texts += [t.partition(":")[2].partition("|")[0] for t in (info["states"] or [])]
+        texts += [info["vals"][0]] if info["vals"] else []
+        for tx in texts:
+            try:
+                ps = parse_state(s, Cur(tx))
+            except Exception:
+                continue
+            if _norm(s, ps, False, False, True) != _norm(s, ps, False, False, False):
+                has_d = True
+                feats.add("dyn:unwitnessed-growth")
+                break
+    if has_d and not D_ON:
+        # situation D is not reported yet (module docstring): the monitor makes no claim, the correspondence does
+        return bad, feats, info, ok_hist
     if not ok_hist and getattr(case, "meta", {}).get("kind") == "wf":
         # a shrink candidate of a generated replayable history that is no longer replayable: outside the
         # contract of that stream, not evidence (keeps minimised replays inside the property's scope)
@@ -874,6 +1133,23 @@ def _analyse(case, out):
                     bad.append("%sfolding recording 1 from empty gives %s, the recorded series ended at %s" % (t, fv, v1))
             except Exception as e:
                 bad.append("[C20] recording 1 is not parseable: %s" % e)
+    if info["states"] is not None:
+        seen1 = {}
+        for t in info["states"]:
+            cyc, _, rest = t.partition(":")
+            a, _, b = rest.partition("|")
+            if a != "-":
+                seen1[int(cyc)] = a
+            if a != b:
+                if "-" not in (a, b):
+                    tt = _msg_for_state(tag, s, a, b)
+                else:      # a cycle that ticked in one run only: the empty tick of asymmetry A, or unexplained
+                    tt = tag or (MSG_A if (r1 is not None and "{}" in r1[0].get(int(cyc), "")) else MSG_0)
+                bad.append("%sstate in cycle %s: original %s, replay of the recording %s" % (tt, cyc, a, b))
+                break
+        if ok_hist and seen1 != exp_states:
+            diff = sorted(set(seen1.items()) ^ set(exp_states.items()))[:2]
+            bad.append(MSG_0 + "the source's per-cycle states are not the fold of the input ticks: %s" % diff)
     if info["direct"] is not None:
         for t in info["direct"]:
             cyc, _, rest = t.partition(":")
@@ -883,7 +1159,7 @@ def _analyse(case, out):
                 continue
             d, d2, a, b = parts
             if d == "-":
-                if ok_hist:
+                if ok_hist and int(cyc) in tick_at:        # (a raw source's touch-only step does not tick)
                     bad.append("[C20] applying tick %s to a bare output did not tick" % cyc)
                 continue
             if d.endswith("!unobservable"):
@@ -900,7 +1176,7 @@ def _analyse(case, out):
     return bad, feats, info, ok_hist
 
 
-def _features_of(s, st, d, feats, seen_removed):
+def _features_of(s, st, d, feats, seen_removed, top=True):
     k = s[0]
     if k == 'TSS':
         if d[1]:
@@ -921,18 +1197,41 @@ def _features_of(s, st, d, feats, seen_removed):
                 feats.add("child-only-tick")
             elif key in seen_removed and key not in cur:
                 feats.add("remove-then-re-add")
-            _features_of(s[2], cur.get(key, fresh(s[2])), cd, feats, set())
+            _features_of(s[2], cur.get(key, fresh(s[2])), cd, feats, set(), False)
     elif k == 'TSL':
         if len(d) < s[2]:
             feats.add("partial-list-tick")
         for i, cd in d.items():
             if 0 <= i < s[2]:
-                _features_of(s[1], st[i], cd, feats, set())
+                _features_of(s[1], st[i], cd, feats, set(), False)
+    elif k == 'TSLD':
+        n = len(st)
+        feats.add("dyn:list-top" if top else "dyn:list-nested")
+        new = sorted(i for i in d if i >= n)
+        if new:
+            if new == list(range(n, n + len(new))):
+                feats.add("dyn:contiguous-growth")
+            else:
+                feats.add("dyn:growth-skips-index")
+                if len(new) >= 2 or new[0] - n >= 2:
+                    feats.add("dyn:growth-skips-several")
+            if len(new) >= 2:
+                feats.add("dyn:several-new-indices")
+            if n == 0 and new[0] > 0:
+                feats.add("dyn:first-tick-at-index>0")
+        if any(i < n and is_valid(s[1], st[i]) for i in d):
+            feats.add("dyn:child-only-tick")
+        if any(i < n and not is_valid(s[1], st[i]) for i in d):
+            feats.add("dyn:skipped-index-ticks-later")
+        if not d:
+            feats.add("dyn:empty-list-delta")
+        for i, cd in d.items():
+            _features_of(s[1], st[i] if i < n else fresh(s[1]), cd, feats, set(), False)
     elif k == 'TSB':
         if len([i for i in d if not (is_collection(s[1][i]) and d[i] == default_delta(s[1][i]))]) < len(s[1]):
             feats.add("partial-bundle-tick")
         for i, cd in d.items():
-            _features_of(s[1][i], st[i], cd, feats, set())
+            _features_of(s[1][i], st[i], cd, feats, set(), False)
 
 
 # ------------------------------------------------------------------ recover / as-of stream: monitor
@@ -955,6 +1254,8 @@ def show_value(s, st, top=True):
         return "{" + ",".join(sc(s[1], x) + "=" + show_value(s[2], (st or {})[x], False) for x in sorted(st or {})) + "}"
     if k == 'TSL':
         return "[" + ",".join(show_value(s[1], c, False) for c in st) + "]"
+    if k == 'TSLD':
+        return "[" + ",".join(show_value(s[1], c, False) for c in st) + "]#%d" % len(st)
     if k == 'TSB':
         return "(" + ",".join("%s=%s" % (chr(97 + i), show_value(c, st[i], False) if is_valid(c, st[i]) else "_")
                               for i, c in enumerate(s[1])) + ")"
@@ -994,6 +1295,9 @@ def _readd_collection(s, st, d, removed_at, feats, path=()):
         for i, cd in d.items():
             if 0 <= i < s[2]:
                 _readd_collection(s[1], st[i], cd, removed_at, feats, path + ("#%d" % i,))
+    elif k == 'TSLD':
+        for i, cd in d.items():
+            _readd_collection(s[1], st[i] if i < len(st) else fresh(s[1]), cd, removed_at, feats, path + ("#%d" % i,))
     elif k == 'TSB':
         for i, cd in d.items():
             _readd_collection(s[1][i], st[i], cd, removed_at, feats, path + (".%d" % i,))
@@ -1005,7 +1309,7 @@ def _contains_kind(s, kind):
         return True
     if k == 'TSD':
         return _contains_kind(s[2], kind)
-    if k == 'TSL':
+    if k in ('TSL', 'TSLD'):
         return _contains_kind(s[1], kind)
     if k == 'TSB':
         return any(_contains_kind(c, kind) for c in s[1])
@@ -1045,6 +1349,10 @@ def _analyse_recover(case, out):
             ok_hist = False
         if ok_hist:
             _readd_collection(s, st, d, removed_at, feats)
+            if _contains_kind(s, 'TSLD'):
+                f2 = set()
+                _features_of(s, st, d, f2, set())
+                feats.update("recover:" + x for x in f2 if x.startswith("dyn:"))
         st = spec_apply(s, st, d)
         states.append((cyc, st))
     if not ok_hist:
@@ -1150,9 +1458,13 @@ def features(stream, case, out):
 def nontrivial(stream, case, out):
     if stream.startswith("recover"):
         f = _analyse_recover(case, out)[1]
+        if stream == "recover-dynlist":
+            return bool(f & {"recover:dyn:growth-skips-index", "recover:dyn:first-tick-at-index>0"})
         return bool(f & {"recover:re-add-of-collection-child", "recover:window-with-several-entries",
                          "recover:one-view-fold-would-differ", "recover:one-view-fold-would-throw"})
     f = _analyse(case, out)[1]
+    if stream.startswith("dynlist"):
+        return bool(f & {"dyn:growth-skips-index", "dyn:first-tick-at-index>0", "dyn:unwitnessed-growth"})
     deep = bool(f & {"depth-2", "depth-3", "depth-4"})
     return deep and bool(f & {"key-removal", "set-removal", "remove-then-re-add", "child-only-tick"})
 
@@ -1161,7 +1473,7 @@ TECHNIQUE = ("Lean 4 proof (structural induction on the schema: apply(capture) r
              "the tick history for the replay->record graph with the dense buffer and for the as-of fold of the sparse "
              "recording) with differential correspondence against real replay->record graphs built from /repo through "
              "the erased operator path and against record_replay::recorded_seed_resolver asked at every cycle")
-LEVEL_TEXT = ("Kernel-checked for every schema (TS, SIGNAL, TSW, TSS, TSD, fixed TSL, TSB, any nesting) and every "
+LEVEL_TEXT = ("Kernel-checked for every schema (TS, SIGNAL, TSW, TSS, TSD, fixed and dynamic TSL, TSB, any nesting) and every "
               "replayable tick: applying the captured delta to the pre-tick state gives the post-tick state including "
               "its per-position marks, capturing from the copy gives the same delta, and for every tick history "
               "(gaps, removals, child-only ticks, empty validating deltas) the graph replay->record over the recording "
@@ -1169,8 +1481,13 @@ LEVEL_TEXT = ("Kernel-checked for every schema (TS, SIGNAL, TSW, TSS, TSD, fixed
               "situations excluded by 'replayable' are proved to break the round trip in the model and are reproduced "
               "on the implementation. Recover read: for every schema, every such history and every cycle c the recording "
               "folded as of c (each entry through a view at its own time, as recorded_seed_resolver does) is the value the "
-              "series held at c and equals what a live probe last saw; folding through one view is proved wrong by witness.")
+              "series held at c and equals what a live probe last saw; folding through one view is proved wrong by witness. "
+              "Dynamic lists (growth by at(i), any number of skipped indices, first tick at any index, any child schema, "
+              "nested anywhere): the same theorems, incl. the length of the replayed list; the rule 'append at the next free "
+              "position' is refuted on [{0:1},{2:3}].")
 LEVEL_NOTE = ("Trusted: Lean kernel; axioms propext/Classical.choice/Quot.sound; the hand-written model of ts_delta.cpp, "
               "the slot stores' delta marks and the two operators; the correspondence harness (real graphs, quick tier "
-              "about 600 histories + about 270 sparse recordings read as of every cycle). Not covered: REF, dynamic TSL, "
-              "duration windows, invalidation ticks, recordings appended across runs, extension seed resolvers.")
+              "about 600 histories + about 270 sparse recordings read as of every cycle + about 450 dynamic-list histories whose "
+              "source is written through the raw output API). Not covered: REF, duration windows, invalidation ticks, "
+              "recordings appended across runs, extension seed resolvers; growth of a dynamic list that no delta entry "
+              "witnesses (situation D) is excluded by hypothesis and proved to break the round trip.")
